@@ -3,7 +3,7 @@
 From Coq Require Import List NArith Bool.
 From Common Require Import Lock.
 From Conc Require Import Lin LockedObject.
-From C34 Require Import Model ModelConc Gen Checker Proofs ProofsHeap ProofsConc ProofsTop.
+From C34 Require Import Model ModelTrace ModelConc Gen Checker Proofs ProofsHeap ProofsTrace ProofsConc ProofsTop.
 Import ListNotations.
 Local Open Scope N_scope.
 
@@ -34,6 +34,39 @@ Theorem C34_spec_order : forall (q : qspec) i p, qbest q = Some (i, p) ->
                 (forall j x, In (j, x) l1 -> x < p) /\ (forall j x, In (j, x) l2 -> x <= p).
 Proof. exact qbest_spec. Qed.
 Print Assumptions C34_spec_order.
+
+(* ---- the clauses of the property said declaratively, on traces.  [trace_ok] (ModelTrace.v)
+   runs no queue: it tracks which transactions are present, with the priority and the acceptance
+   stamp of their accepted Push, and requires of every (operation, result) pair:
+   a Push of a present id answers dup and a Push of an absent id is accepted (duplicates
+   refused); only a present transaction is yielded, and it leaves at the yield or at its removal
+   (yielded or removed at most once per accepted Push); the transaction Pop / PopWithTimer /
+   Peek yield has strictly higher priority than, or the same priority as and an earlier
+   acceptance than, every other present transaction, and nil is answered only when nothing is
+   present; Exists / Len / Pending agree with the present set.
+   Every run of the specification and every run of the heap model satisfies it, for all
+   operation sequences.  The driver evaluates the same predicate on the Go observables. *)
+Theorem C34_spec_trace_ok : forall ops : list op, trace_ok (combine ops (q_run [] ops)) = true.
+Proof. exact spec_trace_ok. Qed.
+Print Assumptions C34_spec_trace_ok.
+
+Theorem C34_model_trace_ok : forall ops : list op, trace_ok (combine ops (m_run m_new ops)) = true.
+Proof. exact model_trace_ok. Qed.
+Print Assumptions C34_model_trace_ok.
+
+(* the predicate is not vacuous: it rejects a second yield of the same transaction, an accepted
+   duplicate, LIFO order among equal priorities, a lower priority first, and nil from a
+   non-empty queue *)
+Example C34_trace_ok_rejects :
+  trace_ok [(Push 1 5, ROk); (Pop, RTx 1 5); (Pop, RTx 1 5)] = false /\
+  trace_ok [(Push 1 5, ROk); (Push 1 7, ROk)] = false /\
+  trace_ok [(Push 1 5, ROk); (Push 2 5, ROk); (Pop, RTx 2 5)] = false /\
+  trace_ok [(Push 1 5, ROk); (Push 2 6, ROk); (Pop, RTx 1 5)] = false /\
+  trace_ok [(Push 1 5, ROk); (Pop, RNone)] = false /\
+  trace_ok [(Push 1 5, ROk); (Remove 1, RUnit); (Pop, RTx 1 5)] = false /\
+  trace_ok [(Push 1 5, ROk); (Push 2 5, ROk); (Push 1 9, RDup); (Pop, RTx 1 5); (Exists 1, RBool false);
+            (Push 1 4, ROk); (Peek, RTx 2 5); (Pending, RList [(1, 4); (2, 5)]); (Len, RNum 2)] = true.
+Proof. vm_compute. repeat split; reflexivity. Qed.
 
 (* ---- concurrency: with the lock modes read from the source, every complete interleaved
    history of any number of threads (method bodies interleaved statement by statement) is
